@@ -14,6 +14,9 @@
             | recursion limit)
      where  which reader meets the batch: "unary" response | "stream" output | "header" stream | "init" (HTTP /init
             response of an exchange) ;  tr  "pipe" | "http"
+     pos    "before" the payload of the response | "after" it (stream output only: the log batch follows the data batch
+            the caller ticks for, so it is met only when the caller leaves the session)
+     exit   how the caller leaves a stream session with a batch behind its payload: "close" | "cancel" | "with" (__exit__)
 
    Outcome classes:  Delivered (callback invoked once)  |  Ignored (callback not invoked)  -- and never CallFails.
    A batch without both keys is not a log batch at all (§7 of the wire document classifies it as data): no clause.    *)
@@ -24,9 +27,11 @@ Msgs == {"present", "empty", "nonutf8", "missing"}
 Extras == {"absent", "obj_plain", "obj_level", "obj_message", "obj_self", "obj_both", "obj_empty", "obj_nonstr",
            "array", "string", "number", "null", "invalid", "empty", "nonutf8", "deep"}
 Wheres == {"unary", "stream", "header", "init"}
-AllCases == {[lvl |-> l, msg |-> m, extra |-> x, where |-> w, tr |-> t] :
-                l \in Lvls, m \in Msgs, x \in Extras, w \in Wheres, t \in {"pipe", "http"}}
-Cases == {c \in AllCases : ~(c.where = "init" /\ c.tr = "pipe")}          \* "init" exists over HTTP only
+AllCases == [lvl : Lvls, msg : Msgs, extra : Extras, where : Wheres, tr : {"pipe", "http"}, pos : {"before", "after"},
+             exit : {"close", "cancel", "with"}]
+Cases == {c \in AllCases : /\ ~(c.where = "init" /\ c.tr = "pipe")          \* "init" exists over HTTP only
+                           /\ (c.pos = "after" => c.where = "stream")
+                           /\ (c.exit # "close" => c.pos = "after")}
 
 IsLogBatch(c) == c.lvl # "missing" /\ c.msg # "missing"
 ObjectExtra(c) == c.extra \in {"obj_plain", "obj_level", "obj_message", "obj_self", "obj_both", "obj_empty", "obj_nonstr"}
